@@ -25,7 +25,13 @@ TESTNAMES=$(grep -oE '^func (Test[A-Za-z0-9_]+)' "$DEMO" | awk '{print $2}' | tr
 cp "$DEMO" $DEMODIR/zz_seed_demo_test.go
 ( cd $DEMODIR && timeout 900 go test -vet=off -count=1 -timeout 14m -run "^($TESTNAMES)\$" . > /tmp/sv-$NAME.demo-with.log 2>&1 ); rc_with=$?
 rm -f $DEMODIR/zz_seed_demo_test.go
-( cd $MOD && timeout 1500 go test -vet=off -count=1 -timeout 20m ./... > /tmp/sv-$NAME.suite.log 2>&1 ); rc_suite=$?
+# The repository's TestInterfaceTickers has a 10 ms wall-clock tolerance and fails on a loaded machine with or
+# without any change: a suite run whose only failures are that test is repeated (up to 3 runs).
+for attempt in 1 2 3; do
+  ( cd $MOD && timeout 1500 go test -vet=off -count=1 -timeout 20m ./... > /tmp/sv-$NAME.suite.log 2>&1 ); rc_suite=$?
+  [ $rc_suite -eq 0 ] && break
+  grep -E '^\s*--- FAIL' /tmp/sv-$NAME.suite.log | grep -qv TestInterfaceTickers && break
+done
 git checkout -q -- . ; git status --porcelain | grep -v '^??' 
 cp "$DEMO" $DEMODIR/zz_seed_demo_test.go
 ( cd $DEMODIR && timeout 900 go test -vet=off -count=1 -timeout 14m -run "^($TESTNAMES)\$" . > /tmp/sv-$NAME.demo-without.log 2>&1 ); rc_without=$?
